@@ -43,6 +43,7 @@ func (c01) Components() map[string]string {
 func (c01) Gen(r *rand.Rand, tier string, idx int) *core.Plan {
 	p := &core.Plan{World: map[string]int64{}}
 	p.World["sharedVerifier"] = int64(r.IntN(2))
+	p.World["decoy"] = int64(r.IntN(3) / 2)
 	ns := 2 + r.IntN(3)
 	for i := 0; i < ns; i++ {
 		p.Ops = append(p.Ops, core.Op{Kind: "sign", I: []int64{int64(r.IntN(6)), int64(r.IntN(2)), int64(r.IntN(2)), int64(r.IntN(4)), int64(r.IntN(4) / 3)}})
@@ -55,7 +56,7 @@ func (c01) Gen(r *rand.Rand, tier string, idx int) *core.Plan {
 	}
 	if r.IntN(3) == 0 {
 		// a signer who signs a payload that names the artifact's digest with a wrong size / media type / payload type
-		p.Ops = append(p.Ops, core.Op{Kind: "roguesign", I: []int64{int64(r.IntN(6)), int64(r.IntN(2)), int64(r.IntN(2)), int64(r.IntN(4))}})
+		p.Ops = append(p.Ops, core.Op{Kind: "roguesign", I: []int64{int64(r.IntN(6)), int64(r.IntN(2)), int64(r.IntN(2)), int64(r.IntN(7))}})
 		ns++
 	}
 	total := ns
@@ -149,7 +150,7 @@ func (l c01) Exec(env *core.Env) *core.Result {
 				}
 				sigs = append(sigs, c01Sig{bytes: b, format: format, artifact: art, origin: fmt.Sprintf("signed(art=%d,signer=%d,%s,meta=%d)", art, op.Int(1)%2, format[12:], op.Int(3)%4)})
 			case "roguesign":
-				art, sg, format, variant := int(op.Int(0))%6, signers[op.Int(1)%2], world.Formats[op.Int(2)%2], op.Int(3)%4
+				art, sg, format, variant := int(op.Int(0))%6, signers[op.Int(1)%2], world.Formats[op.Int(2)%2], op.Int(3)%7
 				var d ocispec.Descriptor
 				if art < 3 {
 					d = oci[art]
@@ -166,9 +167,18 @@ func (l c01) Exec(env *core.Env) *core.Result {
 					o.ContentType = "application/vnd.example.other.payload+json"
 				case 3:
 					d.Annotations = map[string]string{"K1": "v1", "k1 ": "v1"} // near-miss metadata keys
+				case 4: // spellings of the payload type that are not the payload type
+					o.ContentType = "Application/VND.CNCF.Notary.Payload.V1+JSON"
+				case 5:
+					o.ContentType = "application/vnd.cncf.notary.payload.v1+json; charset=utf-8"
+				case 6:
+					o.ContentType = "application/vnd.cncf.notary.payload.v1+json "
 				}
 				b, err := world.SignPayload(sg, world.PayloadFor(d), o)
 				if err != nil {
+					if variant == 6 {
+						continue // a format whose encoder refuses this spelling cannot carry it
+					}
 					res.Violate("HARNESS/roguesign", "", "%v", err)
 					return
 				}
@@ -266,7 +276,13 @@ func (l c01) Exec(env *core.Env) *core.Result {
 				v := sharedVerifier
 				if v == nil {
 					var err error
-					v, err = buildVerifier(vcfg{level: levelName, override: override, stores: []string{"ca:s"}, store: store, validator: val})
+					// in a share of the runs the statement that applies is scoped to the repository and listed after
+					// a wildcard skip statement
+					var scopes []string
+					if p.W("decoy") == 1 {
+						scopes = []string{"registry.example/repo"}
+					}
+					v, err = buildVerifier(vcfg{level: levelName, override: override, stores: []string{"ca:s"}, store: store, validator: val, decoy: p.W("decoy") == 1, scopes: scopes})
 					if err != nil {
 						res.Violate("HARNESS/verifier", "", "%v", err)
 						return
